@@ -183,11 +183,13 @@ func excludeT(t *Table, pattern string) (err error) {
 	ex := make(map[*Index]struct{})
 	ef := make(map[*ForeignKey]struct{})
 	if p, exclude := excludeType(typeC, pattern); exclude {
+		excluded := make(map[*Column]struct{})
 		t.Columns, err = filter(t.Columns, func(c *Column) (bool, error) {
 			match, err := filepath.Match(p, c.Name)
 			if !match || err != nil {
 				return false, err
 			}
+			excluded[c] = struct{}{}
 			for _, idx := range c.Indexes {
 				ex[idx] = struct{}{}
 			}
@@ -196,6 +198,23 @@ func excludeT(t *Table, pattern string) (err error) {
 			}
 			return true, nil
 		})
+		// Not all schema loaders maintain the column back-references (Column.Indexes
+		// and Column.ForeignKeys). Search the table as well, to keep the result of
+		// excluding a column the same for inspected and evaluated (HCL) tables.
+		for _, idx := range t.Indexes {
+			for _, part := range idx.Parts {
+				if _, ok := excluded[part.C]; ok && part.C != nil {
+					ex[idx] = struct{}{}
+				}
+			}
+		}
+		for _, fk := range t.ForeignKeys {
+			for _, c := range fk.Columns {
+				if _, ok := excluded[c]; ok {
+					ef[fk] = struct{}{}
+				}
+			}
+		}
 	}
 	if p, exclude := excludeType(typeI, pattern); exclude {
 		t.Indexes, err = filter(t.Indexes, func(idx *Index) (bool, error) {
